@@ -796,7 +796,7 @@ ANCHORS = [("typhon/collocations/collocator.py", "Collocator.collocate_filesets"
 def explore(ck, n_pairs, runs_per_pair, scratch, use_model=True):
     rng = ck.rng
     for _ in range(n_pairs):
-        if len(ck.violations) >= 8 or getattr(ck, "hung", False):
+        if sum(1 for v in ck.violations if v["signature"] != "output-name-collision") >= 8 or getattr(ck, "hung", False):
             break                       # enough failing inputs; every further run costs seconds
         case = gen_case(rng)
         for k in range(runs_per_pair):
